@@ -144,6 +144,8 @@ def check(run):
     run.functions = 2
     _stencils(run, prog, mi)
     _admt(run, prog, mi)
+    from ..cachekey import check_caches
+    check_caches(run, [mi], 'C20-K')
 
 
 def _stencils(run, prog, mi):
